@@ -15,3 +15,18 @@ Proof.
   assert (Hln : ln dB + ln dA = ln dC + ln dL) by (rewrite <- !ln_mult by assumption; rewrite Hd; reflexivity).
   generalize dependent (INR n * ln (2 * PI)). generalize dependent (INR k * ln (2 * PI)). intros X Y. lra.
 Qed.
+
+(* change of the velocity unit by the factor c > 0: chi^2 is unchanged and det B picks up c^(2n)  (the scale_ lemmas of KernelAlg),
+   so the log-density moves by the Jacobian constant  - n ln c  *)
+Theorem jacobian (n : nat) (chi2 det c : R) :
+  0 < c -> 0 < det ->
+  lnN n chi2 ((c ^ 2) ^ n * det) = lnN n chi2 det - INR n * ln c.
+Proof.
+  intros Hc Hd. unfold lnN.
+  assert (Hp : 0 < (c ^ 2) ^ n) by (apply pow_lt; apply pow_lt; exact Hc).
+  rewrite (ln_mult ((c ^ 2) ^ n) det) by assumption.
+  assert (Hl : ln ((c ^ 2) ^ n) = 2 * INR n * ln c).
+  { rewrite <- pow_mult. rewrite <- Rpower_pow by exact Hc. unfold Rpower. rewrite ln_exp. rewrite mult_INR. simpl INR. ring. }
+  rewrite Hl.
+  field.
+Qed.
